@@ -67,7 +67,7 @@ func c10(args []string) error {
 			alpha = align.AMINOACIDS
 		}
 		seed := r.Int63()
-		kind := r.Intn(10)
+		kind := r.Intn(11)
 		var opterm, opname string
 		type result struct {
 			class  string
@@ -138,6 +138,24 @@ func c10(args []string) error {
 					lp, p := rates[r0(seed, 5)], rates[r0(seed/7, 5)]
 					opname, opterm = "AddGaps", fmt.Sprintf("OpAddGaps %s %s", qcoq(lp), qcoq(p))
 					a.AddGaps(lp.f(), p.f())
+				case 10:
+					// Rarefy: every row has a count of 1..2, nb below, at or above the total
+					counts := map[string]int{}
+					it := []string{}
+					total := 0
+					for q, nm := range names {
+						c := 1 + int((seed>>uint(q%20))&1)
+						counts[nm] = c
+						total += c
+						it = append(it, fmt.Sprintf("(%s, %s)", coqStr(nm), coqZ(c)))
+					}
+					nb := int(seed%int64(total+2)) + 0
+					opname, opterm = "Rarefy", fmt.Sprintf("OpRarefy %s %s", coqZ(nb), coqList(it))
+					s, e := a.Rarefy(nb, counts)
+					if e != nil {
+						return e
+					}
+					out = s
 				case 8:
 					rate := rates[r0(seed, len(rates))]
 					opname, opterm = "Mutate", "OpMutate "+qcoq(rate)
